@@ -472,6 +472,194 @@ def pointAt : List (List K) → List Nat → List K
 theorem dist2_cons (t x : K) (q p : List K) : dist2 (t :: q) (x :: p) = (t - x) * (t - x) + dist2 q p := by
   simp [dist2]
 
+/-! ### nearest neighbour on separated grids: definedness, index → grid point -/
+
+theorem nearestAxis_defined_inc : ∀ (rest : List K) (a b x : K), StrictInc (a :: b :: rest) →
+    a ≤ x → x ≤ (b :: rest).getLast (by simp) → ∃ i, nearestAxis (a :: b :: rest) x = some i := by
+  intro rest
+  induction rest with
+  | nil =>
+    intro a b x hs h1 h2
+    simp only [List.getLast_singleton] at h2
+    rw [nearestAxis_inc_cons hs.1]
+    simp only [h1, h2, decide_true, Bool.and_self, if_true]
+    split_ifs <;> exact ⟨_, rfl⟩
+  | cons c rest ih =>
+    intro a b x hs h1 h2
+    rw [nearestAxis_inc_cons hs.1]
+    by_cases hb : x ≤ b
+    · simp only [h1, hb, decide_true, Bool.and_self, if_true]
+      split_ifs <;> exact ⟨_, rfl⟩
+    · have hb' : b ≤ x := le_of_lt (not_le.mp hb)
+      obtain ⟨i, hi⟩ := ih b c x hs.2 hb' (by simpa [List.getLast_cons] using h2)
+      exact ⟨i + 1, by simp [hb, hi]⟩
+
+theorem nearestAxis_defined_dec : ∀ (rest : List K) (a b x : K), StrictDec (a :: b :: rest) →
+    x ≤ a → (b :: rest).getLast (by simp) ≤ x → ∃ i, nearestAxis (a :: b :: rest) x = some i := by
+  intro rest
+  induction rest with
+  | nil =>
+    intro a b x hs h1 h2
+    simp only [List.getLast_singleton] at h2
+    rw [nearestAxis_dec_cons hs.1]
+    simp only [h1, h2, decide_true, Bool.and_self, if_true]
+    split_ifs <;> exact ⟨_, rfl⟩
+  | cons c rest ih =>
+    intro a b x hs h1 h2
+    rw [nearestAxis_dec_cons hs.1]
+    by_cases hb : b ≤ x
+    · simp only [h1, hb, decide_true, Bool.and_self, if_true]
+      split_ifs <;> exact ⟨_, rfl⟩
+    · have hb' : x ≤ b := le_of_lt (not_le.mp hb)
+      obtain ⟨i, hi⟩ := ih b c x hs.2 hb' (by simpa [List.getLast_cons] using h2)
+      exact ⟨i + 1, by simp [hb, hi]⟩
+
+theorem nearestAxis_defined (ax : List K) (x : K) (h2 : 2 ≤ ax.length) (hs : StrictMono ax)
+    (hin : ∃ a b, ax.head? = some a ∧ ax.getLast? = some b ∧ ((a ≤ x ∧ x ≤ b) ∨ (b ≤ x ∧ x ≤ a))) :
+    ∃ i, nearestAxis ax x = some i := by
+  obtain ⟨a, b, rest, rfl⟩ := head_getLast_split ax h2
+  obtain ⟨a', l, ha, hl, hd⟩ := hin
+  simp only [List.head?_cons, Option.some.injEq] at ha
+  subst ha
+  have hlast : (a :: b :: rest).getLast? = some ((b :: rest).getLast (by simp)) := by
+    simp [List.getLast?_eq_some_getLast, List.getLast_cons]
+  rw [hlast] at hl
+  simp only [Option.some.injEq] at hl
+  subst hl
+  have hmem : (b :: rest).getLast (by simp) ∈ b :: rest := List.getLast_mem _
+  rcases hs with hs | hs
+  · have hlt := knot_gt a (b :: rest) hs _ hmem
+    rcases hd with hd | hd
+    · exact nearestAxis_defined_inc rest a b x hs hd.1 hd.2
+    · exact absurd (lt_of_lt_of_le hlt (le_trans hd.1 hd.2)) (lt_irrefl _)
+  · have hlt := knot_lt a (b :: rest) hs _ hmem
+    rcases hd with hd | hd
+    · exact absurd (lt_of_lt_of_le hlt (le_trans hd.1 hd.2)) (lt_irrefl _)
+    · exact nearestAxis_defined_dec rest a b x hs hd.2 hd.1
+
+/-- per-axis indices that point into the axes -/
+def IdxOk : List (List K) → List Nat → Prop
+  | [], [] => True
+  | ax :: axes, i :: idx => i < ax.length ∧ IdxOk axes idx
+  | _, _ => False
+
+theorem nearestAxis_lt : ∀ (knots : List K) (x : K) (i : Nat), nearestAxis knots x = some i → i < knots.length
+  | [], _, _, h => by simp [nearestAxis] at h
+  | [_], _, _, h => by simp [nearestAxis] at h
+  | a :: b :: knots, x, i, h => by
+    simp only [nearestAxis] at h
+    split at h
+    · split at h <;> split at h <;> simp at h <;> subst h <;> simp
+    · cases h' : nearestAxis (b :: knots) x with
+      | none => simp [h'] at h
+      | some j =>
+        simp [h'] at h
+        have := nearestAxis_lt (b :: knots) x j h'
+        subst h
+        simp at this ⊢
+        omega
+
+theorem nearestIdx_ok : ∀ (axes : List (List K)) (p : List K) (idx : List Nat),
+    nearestIdx axes p = some idx → IdxOk axes idx ∧ p.length = axes.length := by
+  intro axes
+  induction axes with
+  | nil =>
+    intro p idx h
+    cases p with
+    | nil => simp [nearestIdx] at h; subst h; exact ⟨trivial, rfl⟩
+    | cons x p => simp [nearestIdx] at h
+  | cons ax rest ih =>
+    intro p idx h
+    cases p with
+    | nil => simp [nearestIdx] at h
+    | cons x p =>
+      simp only [nearestIdx] at h
+      cases h1 : nearestAxis ax x with
+      | none => rw [h1] at h; simp at h
+      | some i =>
+        cases h2 : nearestIdx rest p with
+        | none => rw [h1, h2] at h; simp at h
+        | some idx' =>
+          rw [h1, h2] at h
+          simp only [Option.some.injEq] at h
+          subst h
+          have hi := nearestAxis_lt ax x i h1
+          obtain ⟨h3, h4⟩ := ih p idx' h2
+          exact ⟨⟨hi, h3⟩, by simp [h4]⟩
+
+theorem flatMap_getElem?_block {α β : Type} (l : List α) (F : α → List β) (M : Nat)
+    (h : ∀ x ∈ l, (F x).length = M) (i j : Nat) (x : α) (hx : l[i]? = some x) (hj : j < M) :
+    (l.flatMap F)[i * M + j]? = (F x)[j]? := by
+  induction l generalizing i with
+  | nil => simp at hx
+  | cons y l ih =>
+    have hy : (F y).length = M := h y (by simp)
+    cases i with
+    | zero =>
+      simp only [List.getElem?_cons_zero, Option.some.injEq] at hx
+      subst hx
+      simp only [List.flatMap_cons, Nat.zero_mul, Nat.zero_add]
+      rw [List.getElem?_append_left (by omega)]
+    | succ i =>
+      simp only [List.getElem?_cons_succ] at hx
+      have := ih (fun x hx' => h x (by simp [hx'])) i hx
+      simp only [List.flatMap_cons]
+      rw [List.getElem?_append_right (by rw [hy]; nlinarith), hy]
+      have e : (i + 1) * M + j - M = i * M + j := by
+        have : (i + 1) * M = i * M + M := by ring
+        omega
+      rw [e, this]
+
+theorem tensorPts_len {α : Type} : ∀ (axes : List (List α)), (tensorPts axes).length = size (axes.map List.length) := by
+  intro axes
+  induction axes with
+  | nil => simp [tensorPts, size]
+  | cons ax rest ih =>
+    simp only [tensorPts, List.length_flatMap, List.length_map, ih, List.map_cons, size_cons]
+    simp
+
+theorem ravel_lt_size : ∀ (axes : List (List K)) (idx : List Nat), IdxOk axes idx →
+    ravel (axes.map List.length) idx < size (axes.map List.length) := by
+  intro axes
+  induction axes with
+  | nil => intro idx _; cases idx <;> simp [ravel, size]
+  | cons ax rest ih =>
+    intro idx h
+    cases idx with
+    | nil => simp [IdxOk] at h
+    | cons i idx =>
+      obtain ⟨h0, h1⟩ := h
+      have := ih idx h1
+      simp only [List.map_cons, ravel, size_cons]
+      calc i * size (rest.map List.length) + ravel (rest.map List.length) idx
+          < i * size (rest.map List.length) + size (rest.map List.length) := by omega
+        _ = (i + 1) * size (rest.map List.length) := by ring
+        _ ≤ ax.length * size (rest.map List.length) := Nat.mul_le_mul_right _ h0
+
+/-- the grid point with per-axis indices `idx` sits at flat index `ravel dims idx` -/
+theorem tensorPts_getElem?_ravel : ∀ (axes : List (List K)) (idx : List Nat), IdxOk axes idx →
+    (tensorPts axes)[ravel (axes.map List.length) idx]? = some (pointAt axes idx) := by
+  intro axes
+  induction axes with
+  | nil => intro idx h; cases idx <;> simp_all [IdxOk, tensorPts, ravel, pointAt]
+  | cons ax rest ih =>
+    intro idx h
+    cases idx with
+    | nil => simp [IdxOk] at h
+    | cons i idx =>
+      obtain ⟨h0, h1⟩ := h
+      simp only [tensorPts, List.map_cons, ravel, pointAt]
+      rw [flatMap_getElem?_block ax _ (size (rest.map List.length)) (by intro t _; simp [tensorPts_len]) i _ ax[i]
+        (by simp [h0]) (ravel_lt_size rest idx h1)]
+      simp [ih idx h1, List.getD_eq_getElem?_getD, h0]
+
+theorem dist2_reverse (a b : List K) (h : a.length = b.length) : dist2 a.reverse b.reverse = dist2 a b := by
+  unfold dist2
+  rw [← List.reverse_zipWith h, List.sum_reverse]
+
+theorem pointAt_mem (axes : List (List K)) (idx : List Nat) (h : IdxOk axes idx) : pointAt axes idx ∈ tensorPts axes :=
+  List.mem_of_getElem? (tensorPts_getElem?_ravel axes idx h)
+
 /-! ### supersampling -/
 
 /-- the dithers all have `D` coordinates and add up to the zero vector -/
